@@ -41,4 +41,19 @@ Unordered(v) ==
          THEN LET ms == [i \in 1..Len(v.m) |-> <<v.m[i][1], Unordered(v.m[i][2])>>] IN
               [t |-> "objbag", m |-> [x \in {ms[i] : i \in 1..Len(ms)} |-> Cardinality({i \in 1..Len(ms) : ms[i] = x})]]
     ELSE v
+
+(***************************************************************************)
+(* Merging (property C14): objects are united recursively, anything else   *)
+(* is replaced by the later value.                                         *)
+(***************************************************************************)
+RECURSIVE MergeTree(_, _)
+MergeTree(a, b) ==
+    IF a.t = "obj" /\ b.t = "obj"
+    THEN LET names(v) == {v.m[i][1] : i \in 1..Len(v.m)}
+             valOf(v, nm) == v.m[CHOOSE i \in 1..Len(v.m) : v.m[i][1] = nm][2]
+             kept == [i \in 1..Len(a.m) |->
+                        IF a.m[i][1] \in names(b) THEN <<a.m[i][1], MergeTree(a.m[i][2], valOf(b, a.m[i][1]))>> ELSE a.m[i]]
+             added == SelectSeq(b.m, LAMBDA x : x[1] \notin names(a)) IN
+         [t |-> "obj", m |-> kept \o added]
+    ELSE b
 =============================================================================
